@@ -79,7 +79,8 @@ func (a *action) Commit(ctx context.Context, b *tm.BusinessActionContext) (bool,
 	defer a.mu.Unlock()
 	a.commits = append(a.commits, inv(b))
 	if a.commitErr {
-		return false, errors.New("confirm failed")
+		// the boolean is independent of the error: (true, err) is still a failure
+		return !a.resultFalse, errors.New("confirm failed")
 	}
 	return !a.resultFalse, nil
 }
@@ -89,7 +90,7 @@ func (a *action) Rollback(ctx context.Context, b *tm.BusinessActionContext) (boo
 	defer a.mu.Unlock()
 	a.rollbacks = append(a.rollbacks, inv(b))
 	if a.rollbackErr {
-		return false, errors.New("cancel failed")
+		return !a.resultFalse, errors.New("cancel failed")
 	}
 	return !a.resultFalse, nil
 }
@@ -138,6 +139,15 @@ type shapeCtxPtr struct {
 	B   int64 `tccParam:"b"`
 }
 
+type shapeNilable struct {
+	P *string           `tccParam:"p"`
+	L []int64           `tccParam:"l"`
+	M map[string]string `tccParam:"m"`
+	I interface{}       `tccParam:"i"`
+	Q *inner            `tccParam:"q"`
+	N string            `tccParam:"n"`
+}
+
 type FieldSpec struct {
 	Kind int    `json:"kind"` // 0 string 1 int64 2 bool 3 float64
 	Tag  string `json:"tag"`  // "" = no tag at all, "-" , or a key
@@ -152,7 +162,7 @@ type Param struct {
 	Fields []FieldSpec `json:"fields,omitempty"` // shape 10: reflect.StructOf
 }
 
-var shapeNames = []string{"tagged", "untagged", "dash-or-empty-tag", "unexported-field", "nested", "pointer-to-tagged", "embedded-action-context", "action-context-pointer-field", "map-non-struct", "string-non-struct", "struct-of"}
+var shapeNames = []string{"tagged", "untagged", "dash-or-empty-tag", "unexported-field", "nested", "pointer-to-tagged", "embedded-action-context", "action-context-pointer-field", "map-non-struct", "string-non-struct", "struct-of", "nil-able-fields"}
 
 func (p Param) s(i int) string {
 	if i < len(p.S) {
@@ -203,6 +213,26 @@ func (p Param) build() (interface{}, map[string]interface{}) {
 		return map[string]int64{"x": p.i(0)}, map[string]interface{}{}
 	case 9:
 		return p.s(0), map[string]interface{}{}
+	case 11:
+		// tagged fields of nil-able kinds, each nil or set: a nil one is still a tagged parameter (JSON null)
+		v := shapeNilable{N: p.s(1)}
+		if !p.b(0) {
+			x := p.s(0)
+			v.P = &x
+		}
+		if !p.b(1) {
+			v.L = append([]int64{}, p.I[:len(p.I)-1]...) // possibly empty but not nil
+		}
+		if !p.b(2) {
+			v.M = map[string]string{"k": p.s(1)}
+		}
+		if !p.b(3) {
+			v.I = p.i(0)
+		}
+		if p.b(0) != p.b(1) {
+			v.Q = &inner{int(p.i(0) % 1000), p.s(0)}
+		}
+		return v, map[string]interface{}{"p": v.P, "l": v.L, "m": v.M, "i": v.I, "q": v.Q, "n": v.N}
 	case 10:
 		var fs []reflect.StructField
 		for k, f := range p.Fields {
@@ -561,7 +591,7 @@ func execute(c Case) *pt.Failure {
 var strs = []string{"", "a", "hello", "中文", `q"uo\te`, "{\"x\":1}", "123", "\u0000"}
 
 func drawParam(t *rapid.T) Param {
-	p := Param{Shape: rapid.IntRange(0, 10).Draw(t, "shape")}
+	p := Param{Shape: rapid.IntRange(0, 11).Draw(t, "shape")}
 	p.S = rapid.SliceOfN(rapid.OneOf(rapid.SampledFrom(strs), rapid.StringN(0, 8, 24)), 2, 4).Draw(t, "s")
 	p.I = rapid.SliceOfN(rapid.OneOf(rapid.SampledFrom([]int64{0, 1, -1, 1 << 53, 1<<53 + 1, 1<<63 - 1, -1 << 63}), rapid.Int64()), 1, 4).Draw(t, "i")
 	p.F = rapid.SliceOfN(rapid.OneOf(rapid.SampledFrom([]float64{0, 1.5, -2.25, 1e300, 5e-324}), rapid.Float64Range(-1e9, 1e9)), 1, 4).Draw(t, "f")
